@@ -155,3 +155,115 @@ theorem lost_closed (s : S) (h : s.lost = false) : (step s .lost).st = .closed :
   cases st <;> simp [St.rank] at h2 ⊢
 
 end Abverif.Ws
+
+namespace Abverif.Ws
+
+/-! ### nothing is delivered or written after the close notification -/
+
+def Out.isRaised : Out → Bool
+  | .raised _ => true
+  | _ => false
+
+/-- a connection whose transport is gone -/
+def Dead (s : S) : Prop := s.lost = true ∧ s.st = .closed
+
+/-- `b` is `a` plus exceptions raised to the caller: nothing written, delivered, dropped or notified -/
+def OnlyRaised (a b : S) : Prop := Dead b ∧ ∃ d, b.log = a.log ++ d ∧ ∀ o ∈ d, o.isRaised = true
+
+theorem OnlyRaised.refl {a : S} (h : Dead a) : OnlyRaised a a := ⟨h, [], by simp, by simp⟩
+
+theorem OnlyRaised.trans {a b c : S} (h1 : OnlyRaised a b) (h2 : OnlyRaised b c) : OnlyRaised a c := by
+  obtain ⟨_, d1, e1, n1⟩ := h1
+  obtain ⟨hc, d2, e2, n2⟩ := h2
+  refine ⟨hc, d1 ++ d2, by rw [e2, e1, List.append_assoc], ?_⟩
+  intro o ho
+  rcases List.mem_append.mp ho with h | h
+  · exact n1 o h
+  · exact n2 o h
+
+theorem OnlyRaised.raise {a : S} (h : Dead a) (e : Err) : OnlyRaised a (a.emit (.raised e)) :=
+  ⟨h, [.raised e], rfl, by simp [Out.isRaised]⟩
+
+theorem fire_dead (s : S) (k : TK) (h : Dead s) : OnlyRaised s (fire s k) := by
+  have hi := timers_inert_after_close' s k h.2
+  refine ⟨⟨?_, hi.2⟩, [], by simp [hi.1], by simp⟩
+  rw [(fire_Ext s k).lost]; exact h.1
+where
+  timers_inert_after_close' (s : S) (k : TK) (h : s.st = .closed) : (fire s k).log = s.log ∧ (fire s k).st = .closed := by
+    cases k
+    · simp [fire, h]
+    · simp [fire, h]
+    · simp [fire, h]
+    · simp [fire, h]
+    · have hp : sendPing (beginAutoPing s) ((beginAutoPing s).pingPending.getD []) = beginAutoPing s := by
+        unfold sendPing
+        rw [if_pos (by simp [beginAutoPing, h])]
+      simp only [fire, sendAutoPing, hp]
+      split <;> simp [armPingTimeout, S.timer, beginAutoPing, h]
+    · simp only [fire, sendTick]
+      split
+      · simp [S.timer, S.emit, h]
+      · simp [h]
+
+theorem advanceTo_dead (target fuel : Nat) (s : S) (h : Dead s) : OnlyRaised s (advanceTo target fuel s) := by
+  induction fuel generalizing s with
+  | zero => exact OnlyRaised.refl h
+  | succ n ih =>
+    unfold advanceTo
+    split
+    · rename_i k d q hn
+      split
+      · have h1 : Dead { s with now := max s.now d } := h
+        have h2 := fire_dead { s with now := max s.now d } k h1
+        have h3 := ih _ h2.1
+        exact OnlyRaised.trans (a := s) ⟨h2.1, h2.2⟩ h3
+      · exact ⟨h, [], by simp, by simp⟩
+    · exact ⟨h, [], by simp, by simp⟩
+
+/-- **silent_after_onClose**: once the transport is gone (and the close notification delivered), no operation of any
+kind — late data, timers, API calls — writes, delivers, drops or notifies anything; API calls at most raise -/
+theorem silent_after_onClose (s : S) (op : Op) (h : Dead s) : OnlyRaised s (step s op) := by
+  unfold step pump
+  have core : OnlyRaised s (stepCore s op) := by
+    have hst := h.2
+    have hl := h.1
+    cases op <;> simp only [stepCore]
+    · simp [dataReceived, hl]; exact OnlyRaised.refl h
+    · rw [connectionLost_idem s hl]; exact OnlyRaised.refl h
+    · exact advanceTo_dead _ _ _ h
+    · simp [sendMessage, hst]; exact OnlyRaised.raise h _
+    · unfold sendPrepared
+      dsimp only
+      have hk : Dead (prepareKey s).1 := by
+        unfold prepareKey; split <;> exact h
+      have hlog : (prepareKey s).1.log = s.log := by unfold prepareKey; split <;> rfl
+      split
+      · exact ⟨hk, [.raised .exception], by simp [S.emit, hlog], by simp [Out.isRaised]⟩
+      · rw [if_pos (by rw [hk.2]; simp)]
+        exact ⟨hk, [.raised .disconnected], by simp [S.emit, hlog], by simp [Out.isRaised]⟩
+    · simp [beginMessage, hst]; exact OnlyRaised.refl h
+    · simp [beginMessageFrame, hst]; exact OnlyRaised.refl h
+    · simp [sendMessageFrameData, hst]; exact OnlyRaised.refl h
+    · simp [endMessage, hst]; exact OnlyRaised.refl h
+    · simp [sendMessageFrame, hst]; exact OnlyRaised.refl h
+    · simp [sendPing, hst]; exact OnlyRaised.refl h
+    · simp [sendPong, hst]; exact OnlyRaised.refl h
+    · unfold sendClose
+      split
+      · exact OnlyRaised.raise h _
+      · split
+        · exact OnlyRaised.raise h _
+        · simp [sendCloseFrame, hst]; exact OnlyRaised.refl h
+    · simp [handshakeDone, hst]; exact OnlyRaised.refl h
+    · simp [handshakeDone, hst, dataReceived, hl]; exact OnlyRaised.refl h
+  exact OnlyRaised.trans core (advanceTo_dead _ _ _ core.1)
+
+/-- after the transport is gone the connection stays dead for the whole rest of the history -/
+theorem dead_forever (s : S) (ops : List Op) (h : Dead s) : Dead (run s ops) := by
+  induction ops generalizing s with
+  | nil => exact h
+  | cons op ops ih =>
+    simp only [run, List.foldl_cons]
+    exact ih _ (silent_after_onClose s op h).1
+
+end Abverif.Ws
